@@ -165,7 +165,9 @@ def strip(tr, drop=('RQ@', 'RA@')):
     # the twin's key is another custom action without effect on the keyboard: its message is not compared; a second release of a
     # key that is already up in the same millisecond (one release per state holding the key) is the same behaviour
     from checks.c07 import dedup_releases
-    return [dedup_releases(l) for l in (tr or []) if not l.startswith(drop) and not (l.startswith('M@') and ' other ' in l)]
+    # (the number of layout states is bookkeeping, not behaviour: a state left behind by a lost custom release - known finding of C01 -
+    # differs between a run whose reload key carries `lrld` and its twin whose key carries `push-msg`)
+    return [re.sub(r' nstates=\d+', '', dedup_releases(l)) for l in (tr or []) if not l.startswith(drop) and not (l.startswith('M@') and ' other ' in l)]
 
 
 def after_marker(tr):
